@@ -223,12 +223,21 @@ func buildCorsPair(r *core.Rand, router string) *corsPair {
 	bo.Dynamic = true
 	p.with, p.wsWith = rt.BuildWS(p.t, bo)
 	p.cors = p.cfg.build(p.with, p.tap)
+	p.with.Filter(presetACAO)
 	p.with.Filter(p.cors.Filter)
 	p.with.Filter(rt.SelFilter("after-cors"))
 	p.twin, p.wsTwin = rt.BuildWS(p.t, bo)
 	p.twin.Filter(rt.SelFilter("after-cors"))
 	p.plain, p.wsPlain = rt.BuildWS(p.t, bo)
 	return p
+}
+
+// presetACAO is an outer layer that already put an Access-Control-Allow-Origin on the response (on demand of the request).
+func presetACAO(req *restful.Request, resp *restful.Response, chain *restful.FilterChain) {
+	if v := req.Request.Header.Get("X-Preset-Acao"); v != "" {
+		resp.Header().Set("Access-Control-Allow-Origin", v)
+	}
+	chain.ProcessFilter(req, resp)
 }
 
 func corsReq(method, path, origin string, acrm, acrh string) rt.Req {
@@ -421,6 +430,16 @@ func judgePreflight(cfg *corsCfg, allowedMethods []string, acrm, acrh string, ou
 				return "grant-header-count", fmt.Sprintf("%s appears %d times", k, len(ac[k]))
 			}
 		}
+		// every header the grant names must be an allowed one
+		if !exactIn("*", cfg.Headers) {
+			for _, line := range ac["Access-Control-Allow-Headers"] {
+				for _, h := range strings.Split(line, ",") {
+					if h = strings.Trim(h, " "); h != "" && !foldIn(h, cfg.Headers) {
+						return "grant-names-header-not-allowed", fmt.Sprintf("Access-Control-Allow-Headers names %q, allowed headers are %v", h, cfg.Headers)
+					}
+				}
+			}
+		}
 		// the advertised method list itself must be the allowed set
 		if setOf(ac["Access-Control-Allow-Methods"]) != setOf(allowedMethods) {
 			return "grant-lists-other-methods", fmt.Sprintf("Access-Control-Allow-Methods %v, allowed methods are %v", ac["Access-Control-Allow-Methods"], allowedMethods)
@@ -495,6 +514,14 @@ func c09(ctx *core.Ctx) {
 					}
 					acrh := strings.Join(hs, rr.Pick([]string{",", ", ", " , "}))
 					req := corsReq("OPTIONS", u, origin, acrm, acrh)
+					if q == 5 && len(p.cfg.Headers) > 0 && !exactIn("*", p.cfg.Headers) && len(allowed) > 0 {
+						// the requested headers arrive on two lines, the first one allowed; whatever the filter grants must be allowed
+						acrm, acrh = allowed[0], p.cfg.Headers[0]
+						hs = []string{acrh}
+						req = corsReq("OPTIONS", u, origin, acrm, acrh)
+						req.More = map[string][]string{"Access-Control-Request-Headers": {rr.Pick([]string{"X-Evil", "Authorization, X-Evil", "X-Other-Evil"})}}
+						ctx.Count("preflights_with_two_header_lines", 1)
+					}
 					out := rt.Run(p.with, rt.Dispatch, &req)
 					ctx.Eval(1)
 					doc := map[string]interface{}{"config": p.cfg, "table": p.t, "request": req, "allowed_methods": allowed, "computed": computed, "router": router,
@@ -513,6 +540,17 @@ func c09(ctx *core.Ctx) {
 					}
 					if cls != "" {
 						ctx.Violation(ci, fmt.Sprintf("c09:%s:computed=%v", cls, computed), fmt.Sprintf("OPTIONS %q ACRM=%q ACRH=%q: %s", u, acrm, acrh, msg), doc)
+					}
+				}
+				// a preflight whose response already carries an Allow-Origin from an outer layer: still answered by the filter alone
+				{
+					req := corsReq("OPTIONS", u, origin, "GET", "")
+					req.Hdr["X-Preset-Acao"] = "http://outer.example"
+					out := rt.Run(p.with, rt.Dispatch, &req)
+					ctx.Eval(1)
+					if len(out.Obs.Invokes) > 0 || len(out.Obs.Sels) > 0 {
+						ctx.Violation(ci, "c09:chain-continued:preset-allow-origin", fmt.Sprintf("OPTIONS %q (preflight, Allow-Origin pre-set by an outer filter): a later filter or route function ran", u),
+							map[string]interface{}{"config": p.cfg, "table": p.t, "request": req, "router": router})
 					}
 				}
 				// actual requests from the allowed origin
